@@ -7,6 +7,9 @@
    (plain, under read_mutex), blocks[] (plain).  Plain cells follow the view discipline of
    Lib/Conc.v, here with one version per plain cell (slot j, payload of message m,
    read_cursor) and views = finite maps from plain cells to versions (default 0).
+   Messages: the model moves message IDENTITIES (ticket numbers) through the slots and never
+   inspects them; the pointer VALUE a message carries is c_val id (any value, repeats allowed)
+   and appears only in what the harness reports (notes) and in its decision to dereference.
    Ghost state: written (s_nw, s_wr: appended at the cursor store), writes begun (s_wbeg:
    slot stores), read-once takes in read-mutex order (s_nt, s_once, s_who), the monitors
    s_lapped (the documented no-lapping precondition was violated) and s_uncov (plain reads
@@ -101,6 +104,10 @@ Record cfg := {
   c_wcnt : nat -> nat;   (* messages per writer tid *)
   c_rq : nat -> nat;     (* reads per reader tid *)
   c_idx0 : nat -> Z;     (* first 32-bit index per reader tid *)
+  c_val : Z -> Z;        (* the pointer value passed to muggle_ring_buffer_write for message id:
+                            c_val id = id means the address of the message's own payload object;
+                            negative codes are arbitrary other pointer values (NULL, (void* )-1,
+                            small integers, addresses inside the ring, ...), possibly repeated *)
 }.
 Definition cap (c : cfg) : Z := 2 ^ Z.of_nat (c_k c).
 Definition two32 : Z := 4294967296.
@@ -466,14 +473,17 @@ Definition step (P : params) (s : sys) (t : nat) (ch : nat) : option (sys * labe
     let j := t_idx x mod cap c in
     let m := s_slot s j in
     let cs := covered (t_view x) (s_ver s) (CSlot j) in
-    let pv := if m <? 0 then -1 else s_pay s m in
-    let cp := if m <? 0 then true else covered (t_view x) (s_ver s) (CPay m) in
+    (* the harness dereferences the pointer only when it is a payload object's address; the
+       ring itself never looks at the value *)
+    let v := c_val c m in
+    let pv := if 0 <=? v then s_pay s v else -1 in
+    let cp := if 0 <=? v then covered (t_view x) (s_ver s) (CPay v) else true in
     let rem' := pred (t_rem x) in
     let x' := {| t_pc := match rem' with O => TFin | S _ => RLoad end;
                  t_view := t_view x; t_rem := rem'; t_msg := t_msg x; t_pos := t_pos x;
                  t_idx := (t_idx x + 1) mod two32; t_cnt := t_cnt x + 1; t_ret := m;
                  t_got := zupd (t_got x) (t_cnt x) m; t_gotn := t_gotn x |} in
-    Some (set_thr (set_read s (unc1 cs + unc1 cp)) t x', LPlain [(note_got, m); (note_pay, pv)])
+    Some (set_thr (set_read s (unc1 cs + unc1 cp)) t x', LPlain [(note_got, v); (note_pay, pv)])
   (* ---------------- reader: read-once ---------------- *)
   | KStart =>
     match t_rem x with
@@ -513,12 +523,13 @@ Definition step (P : params) (s : sys) (t : nat) (ch : nat) : option (sys * labe
     Some (set_thr (set_mtx s 0 (t_view x)) t (set_pc x KDoneSeg), LEv (Ev OMunlock cell_rmtx MoNone 0 0 0))
   | KDoneSeg =>
     let m := t_ret x in
-    let pv := if m <? 0 then -1 else s_pay s m in
-    let cp := if m <? 0 then true else covered (t_view x) (s_ver s) (CPay m) in
+    let v := c_val c m in
+    let pv := if 0 <=? v then s_pay s v else -1 in
+    let cp := if 0 <=? v then covered (t_view x) (s_ver s) (CPay v) else true in
     let rem' := pred (t_rem x) in
     let x' := {| t_pc := match rem' with O => TFin | S _ => KLock end;
                  t_view := t_view x; t_rem := rem'; t_msg := t_msg x; t_pos := t_pos x;
                  t_idx := (t_idx x + 1) mod two32; t_cnt := t_cnt x + 1; t_ret := m;
                  t_got := zupd (t_got x) (t_cnt x) m; t_gotn := t_gotn x |} in
-    Some (set_thr (set_read s (unc1 cp)) t x', LPlain [(note_got, m); (note_pay, pv)])
+    Some (set_thr (set_read s (unc1 cp)) t x', LPlain [(note_got, v); (note_pay, pv)])
   end.
